@@ -565,12 +565,16 @@ def _cvc5_check(pc, goal, ms):
             r = subprocess.run(["/usr/bin/cvc5", "--tlimit=%d" % ms, path], capture_output=True, text=True, timeout=ms / 1000.0 + 5)
             out = r.stdout.strip().splitlines()
             res = out[-1].strip() if out else "error"
+            if res not in ("unsat", "sat", "unknown") and os.environ.get("PYVC_DEBUG"):
+                print("DEBUG cvc5:", (r.stdout + r.stderr)[-300:])
             return res if res in ("unsat", "sat", "unknown") else "error"
         except subprocess.TimeoutExpired:
             return "unknown"
         finally:
             os.unlink(path)
-    except Exception:
+    except Exception as e:
+        if os.environ.get("PYVC_DEBUG"):
+            print("DEBUG cvc5 exception:", e)
         return "error"
 
 
@@ -602,6 +606,8 @@ def explore(run, on_path=None, max_paths=4000):
             args = C.make_args(run.case, ctx, run.shape) if run.concrete_args is None else \
                 {k: ctx.clone_value(v) for k, v in run.concrete_args.items()}
             run.cur_args = args
+            if C.pre_execute is not None:
+                C.pre_execute(None, mod, fnode, args)      # binds closures / aliases between live-in variables
             a = Namespace(args)
             old = Namespace({k: ctx.clone_value(v) for k, v in args.items()})
             if C.requires is not None:
